@@ -278,7 +278,7 @@ fn cli_path() -> String {
 pub fn run_cli(text: &str) -> CliObs {
     use std::os::unix::process::ExitStatusExt;
     let dir = format!(
-        "/var/tmp/oalmc-{}-{}",
+        "/var/tmp/oalmc-{}-{} \u{e9}",
         std::process::id(),
         TMP_COUNTER.fetch_add(1, Ordering::SeqCst)
     );
@@ -680,7 +680,7 @@ fn workspace_programs(thorough: bool) -> Vec<crate::gen::Program> {
 
 fn files_cli(texts: &[(String, String)]) -> CliObs {
     use std::os::unix::process::ExitStatusExt;
-    let dir = format!("/var/tmp/oalmc-{}-{}", std::process::id(), TMP_COUNTER.fetch_add(1, Ordering::SeqCst));
+    let dir = format!("/var/tmp/oalmc-{}-{} \u{e9}", std::process::id(), TMP_COUNTER.fetch_add(1, Ordering::SeqCst));
     let _ = std::fs::remove_dir_all(&dir);
     std::fs::create_dir_all(&dir).expect("cannot create temporary directory");
     for (name, text) in texts {
